@@ -25,6 +25,9 @@ TARGETS = [
     ('amqpstorm/channel.py', 'Channel', 'check_for_errors'),
     ('amqpstorm/basic.py', 'Basic', 'publish'),
     ('amqpstorm/basic.py', 'Basic', '_publish_confirm'),
+    ('amqpstorm/rpc.py', 'Rpc', 'register_request'),
+    ('amqpstorm/rpc.py', 'Rpc', 'on_frame'),
+    ('amqpstorm/rpc.py', 'Rpc', 'get_request'),
     ('amqpstorm/heartbeat.py', 'Heartbeat', 'stop'),
     ('amqpstorm/heartbeat.py', 'Heartbeat', '_start_new_timer'),
     ('amqpstorm/heartbeat.py', 'Heartbeat', '_check_for_life_signs'),
@@ -66,6 +69,9 @@ def lock_id(node, cls):
 
 def call_id(call, cls):
     f = call.func
+    if isinstance(f, ast.Attribute) and isinstance(f.value, ast.Subscript) and \
+            dotted(f.value.value)[-1] == '_response' and f.attr == 'append':
+        return 'KAppendResponse'
     d = dotted(f)
     name = d[-1]
     recv = d[-2] if len(d) >= 2 else ''
@@ -123,6 +129,12 @@ def call_id(call, cls):
         return 'KTimerCancel'
     if name == 'send_heartbeat_impl':
         return 'KSendHeartbeat'
+    if name == '_wait_for_request':
+        return 'KWaitFor'
+    if name == '_get_response_frame':
+        return 'KGetFrame'
+    if name == 'remove' and recv == 'self' and cls == 'Rpc':
+        return 'KRpcRemove'
     return 'KOther'
 
 
@@ -182,6 +194,10 @@ class Walker(object):
                     self.emit('TCall KStoreChannel')
                 if isinstance(t, ast.Attribute) and t.attr == '_consumer_tags':
                     self.emit('TCall KTagsRebind')
+                if isinstance(t, ast.Subscript) and dotted(t.value)[-1] == '_request':
+                    self.emit('TCall KStoreRequest')
+                if isinstance(t, ast.Subscript) and dotted(t.value)[-1] == '_response':
+                    self.emit('TCall KStoreResponse')
         elif isinstance(s, ast.With):
             ids = []
             for item in s.items:
